@@ -69,24 +69,78 @@ theorem c04_code_shape :
       "2| close(sessionReq[sessionID].reply)",
       "2| delete(sessionMap, sessionID)",
       "2| delete(sessionReq, sessionID)"] ∧
-    Gen.VssFacts.loopPeerMsg = [
+    Gen.VssFacts.loopWhole = [
       "0| func Loop()",
-      "1| switch content := msg.Msg.Message.(type)",
-      "2| case *PublicKey:",
-      "3| err := d.p.Reply(context.Background(), msg.Sender, msg.RequestNonce, content)",
-      "3| if err != nil",
-      "3| stampSender(content, msg.Sender)",
-      "3| handlePeerMsg(sessionPubKeys, sessionReqPubs, d.p, content.SessionId, content)",
-      "2| case *Deal:",
-      "3| err := d.p.Reply(context.Background(), msg.Sender, msg.RequestNonce, content)",
-      "3| if err != nil",
-      "3| handlePeerMsg(sessionDeals, sessionReqDeals, d.p, content.SessionId, content)",
-      "2| case *Responses:",
-      "3| err := d.p.Reply(context.Background(), msg.Sender, msg.RequestNonce, content)",
-      "3| if err != nil",
-      "3| resps := content.Response",
-      "3| for _, resp := range resps",
-      "4| handlePeerMsg(sessionResps, sessionReResps, d.p, content.SessionId, resp)"] ∧
+      "1| defer d.logger.Info(\"End Loop\")",
+      "1| peersToBuf, _ := d.p.SubscribeMsg(400, PublicKey{}, Deal{}, Responses{})",
+      "1| sessionPubKeys := make(map[string][]interface{})",
+      "1| sessionDeals := make(map[string][]interface{})",
+      "1| sessionResps := make(map[string][]interface{})",
+      "1| sessionReqPubs := map[string]request{}",
+      "1| sessionReqDeals := map[string]request{}",
+      "1| sessionReResps := map[string]request{}",
+      "1| expire := func(sessionMap map[string][]interface{}, sessionReq map[string]request) {…}",
+      "2| func(sessionMap map[string][]interface{}, sessionReq map[string]request)",
+      "3| for _, req := range sessionReq",
+      "4| select",
+      "5| case <-req.ctx.Done():",
+      "6| close(req.reply)",
+      "6| delete(sessionMap, req.sessionID)",
+      "6| delete(sessionReq, req.sessionID)",
+      "5| default:",
+      "1| watchdog := time.NewTicker(time.Minute)",
+      "1| defer watchdog.Stop()",
+      "1| for",
+      "2| select",
+      "3| case <-watchdog.C:",
+      "4| expire(sessionPubKeys, sessionReqPubs)",
+      "4| expire(sessionDeals, sessionReqDeals)",
+      "4| expire(sessionResps, sessionReResps)",
+      "3| case msg, ok := <-peersToBuf:",
+      "4| if !ok",
+      "5| return",
+      "4| switch content := msg.Msg.Message.(type)",
+      "5| case *PublicKey:",
+      "6| err := d.p.Reply(context.Background(), msg.Sender, msg.RequestNonce, content)",
+      "6| if err != nil",
+      "6| stampSender(content, msg.Sender)",
+      "6| handlePeerMsg(sessionPubKeys, sessionReqPubs, d.p, content.SessionId, content)",
+      "5| case *Deal:",
+      "6| err := d.p.Reply(context.Background(), msg.Sender, msg.RequestNonce, content)",
+      "6| if err != nil",
+      "6| handlePeerMsg(sessionDeals, sessionReqDeals, d.p, content.SessionId, content)",
+      "5| case *Responses:",
+      "6| err := d.p.Reply(context.Background(), msg.Sender, msg.RequestNonce, content)",
+      "6| if err != nil",
+      "6| resps := content.Response",
+      "6| for _, resp := range resps",
+      "7| handlePeerMsg(sessionResps, sessionReResps, d.p, content.SessionId, resp)",
+      "3| case req, ok := <-d.bufToNode:",
+      "4| if !ok",
+      "5| return",
+      "4| if r, ok := req.(request); ok",
+      "5| switch r.reqType",
+      "6| case 0:",
+      "7| handleRequest(sessionPubKeys, sessionReqPubs, r)",
+      "6| case 1:",
+      "7| handleRequest(sessionDeals, sessionReqDeals, r)",
+      "6| case 2:",
+      "7| handleRequest(sessionResps, sessionReResps, r)",
+      "4| else"] ∧
+    Gen.VssFacts.handleRequest = [
+      "0| func handleRequest(sessionMap map[string][]interface{}, sessionReq map[string]request, req request)",
+      "1| sessionReq[req.sessionID] = req",
+      "1| if len(sessionMap[req.sessionID]) == req.numOfResps",
+      "2| select",
+      "3| case <-sessionReq[req.sessionID].ctx.Done():",
+      "3| case sessionReq[req.sessionID].reply <- sessionMap[req.sessionID]:",
+      "2| close(req.reply)",
+      "2| delete(sessionMap, req.sessionID)",
+      "2| delete(sessionReq, req.sessionID)"] ∧
+    Gen.VssFacts.newPDKG = [
+      "0| func NewPDKG(p p2p.P2PInterface, suite suites.Suite) PDKGInterface",
+      "1| d := &pdkg{ p: p, bufToNode: make(chan interface{}, 50), register: make(chan *group), suite: suite, logger: log.New(\"module\", \"dkg\"), }",
+      "1| return d"] ∧
     Gen.VssFacts.askMembers = [
       "0| func askMembers(ctx context.Context, logger log.Logger, bufToNode chan interface{}, numOfResp, reqTpe int, sessionID string) (out chan []interface{})",
       "1| out = make(chan []interface{}, 1)",
@@ -203,8 +257,20 @@ theorem c04_code_shape :
       "1| if err != nil",
       "2| return nil, err",
       "1| _, commits := pub.Info()",
-      "1| return &DistKeyShare{ Commits: commits, Share: &share.PriShare{ I: int(d.index), V: sh, }, PrivatePoly: d.dealer.PrivatePoly().Coefficients(), }, nil"] :=
-  ⟨rfl, rfl, rfl, rfl, rfl, rfl⟩
+      "1| return &DistKeyShare{ Commits: commits, Share: &share.PriShare{ I: int(d.index), V: sh, }, PrivatePoly: d.dealer.PrivatePoly().Coefficients(), }, nil"] ∧
+    Gen.VssFacts.dkgCertified = [
+      "0| func Certified() bool",
+      "1| return len(d.QUAL()) >= len(d.participants)"] ∧
+    Gen.VssFacts.dkgQualIter = [
+      "0| func qualIter(fn func(idx uint32, v *vss.Verifier) bool)",
+      "1| for i, v := range d.verifiers",
+      "2| if v.DealCertified()",
+      "3| if !fn(i, v)",
+      "4| break"] ∧
+    Gen.VssFacts.verifierDealCertified = [
+      "0| func DealCertified() bool",
+      "1| return v.approved && v.aggregator.DealCertified()"] :=
+  ⟨rfl, rfl, rfl, rfl, rfl, rfl, rfl, rfl, rfl, rfl, rfl⟩
 
 
 /-- **4. `schedule_independent`.**  Whatever the schedule did to member `i`, if it finishes its
